@@ -172,6 +172,9 @@ def handler(case):
                     sim.run_sequential(save_dir=d, save_flag=save, **kw)
                 elif mode == "mc-debug":
                     sim.run_monte_carlo(iterations=3, save_iterations=[1, 3], save_dir=d, debug=True, save_flag=save, **kw)
+                elif mode == "mc-wide":
+                    # more worker processes than iterations
+                    sim.run_monte_carlo(iterations=case.get("wide_iters", 2), save_iterations=[1], save_dir=d, n_procs=4, save_flag=save, **kw)
                 else:
                     sim.run_monte_carlo(iterations=3, save_iterations=[2], save_dir=d, n_procs=2, save_flag=save, **kw)
         except Exception as e:
@@ -198,7 +201,8 @@ def handler(case):
         if save and mode != "seq":
             mcdir = os.path.join(d, "monte_carlo")
             counts = {os.path.relpath(os.path.join(dp, fn), d): rows(os.path.join(dp, fn)) for dp, _, fns in os.walk(mcdir) for fn in fns}
-            bad = {k: v for k, v in counts.items() if v != 3}
+            nit = case.get("wide_iters", 2) if mode == "mc-wide" else 3
+            bad = {k: v for k, v in counts.items() if v != nit}
             if not counts:
                 viols.append(("files.none", f"{entry}: no Monte Carlo result files written"))
             if bad:
@@ -266,6 +270,11 @@ def gen(rng, n, nh=0):
         spec["ctrl"]["ict"] = {"n": len(names) + 1, "lines": [[0, i + 1] for i in range(len(names))], "attach": {nm: i + 1 for i, nm in enumerate(names)}}
         cases.append({"kind": "run", "spec": spec, "unit": 3, "dt": "1", "hours": "30", "nprof": 24, "start": [0, rng.randint(0, 23), 0],
                       "seed": rng.randint(0, 10 ** 6), "rate": 1500.0, "ict_factor": 3.0, "trafo_rate": 0.0, "entries": ["seq/save", "mc-debug/nosave"][: 1 + q % 2]})
+    for q in range(max(2, n // 7)):
+        # Monte Carlo with more workers than iterations (2 iterations / 1 iteration on 4 workers), saving on
+        spec = gen_spec(rng)
+        cases.append({"kind": "run", "spec": spec, "unit": 3, "dt": "1", "hours": "8", "nprof": 24, "start": [0, rng.randint(0, 23), 0],
+                      "seed": rng.randint(0, 10 ** 6), "rate": 600.0, "trafo_rate": 0.0, "entries": ["mc-wide/save"], "wide_iters": [2, 1][q % 2]})
     for _ in range(nh):
         # steps that are not binary fractions of the reporting unit: 1 h in days / weeks, 20 / 10 / 6 min in hours, 1 s in hours ...
         u, dt_s = rng.choice([(4, 3600), (4, 1800), (5, 3600), (3, 1200), (3, 600), (3, 360), (3, 60), (2, 20), (2, 1), (3, 1), (4, 7200), (3, 3600), (2, 60)])
